@@ -92,10 +92,10 @@ def _e3(args):
 def lengthrange_models(thorough):
     """Actuator sequences over {motor, muscle, muscle with an existing range}: `mjCModel::LengthRange` simulates only the
     actuators that need a range and splits the actuator list over threads, so the position of the skipped ones in the
-    list matters.  Every sequence of length 2..nmax with at least two muscles; one hinge body per actuator, distinct
+    list matters.  Every sequence of length 2..5 with at least two muscles (quick: at most one pre-ranged muscle at length 5); one hinge body per actuator, distinct
     joint ranges so that a range assigned to the wrong actuator is visible."""
     out = []
-    nmax = 6 if thorough else 5
+    nmax = 5
     for n in range(2, nmax + 1):
         for seq in itertools.product("mMe", repeat=n):
             if sum(c == "M" for c in seq) < 2:
